@@ -5,6 +5,7 @@ import (
 	"fmt"
 	"html/template"
 	"strings"
+	"testing/iotest"
 
 	"github.com/gobuffalo/plush/v5"
 
@@ -104,6 +105,18 @@ var c05StmtSkels = []struct{ name, s string }{
 	{"after-block", "<%= if (true) { %>T<% } %><%= ⟦F⟧ %>"},
 	{"in-hash-arg", "<%= opt({k: ⟦F⟧}) %>"},
 	{"render-helper", "<%= rend() %>"},
+	// shipped helpers that run a block or take arguments
+	{"builtin-htmlEscape-block", "<%= htmlEscape() { %>a<%= ⟦F⟧ %>b<% } %>"},
+	{"builtin-htmlEscape-block-silent", "<% htmlEscape() { %>a<%= ⟦F⟧ %>b<% } %>"},
+	{"builtin-arg-len", "<%= len(⟦F⟧) %>"},
+	{"builtin-arg-toJSON", "<%= toJSON(⟦F⟧) %>"},
+	{"builtin-arg-truncate-option", "<%= truncate(\"abcdef\", {size: ⟦F⟧}) %>"},
+	{"builtin-arg-range-in-for", "<%= for (v) in range(1, ⟦F⟧) { %>x<% } %>"},
+	{"builtin-arg-groupBy", "<%= for (g) in groupBy(2, ⟦F⟧) { %>x<% } %>"},
+	{"builtin-arg-raw", "<%= raw(⟦F⟧) %>"},
+	{"contentOf-name", "<%= contentOf(⟦F⟧) { %>d<% } %>"},
+	{"partial-name", "<%= partial(⟦F⟧) %>"},
+	{"partial-layout-name", "<%= partial(\"plain\", {layout: ⟦F⟧}) %>"},
 }
 
 type c05Env struct {
@@ -152,6 +165,10 @@ func c05Ctx(env *c05Env) *plush.Context {
 		return template.HTML(s), err
 	})
 	ctx.Set("partialFeeder", func(n string) (string, error) {
+		if n == "ferr" {
+			env.calls++ // the instrumented fault: the application's feeder fails
+			return "", env.sentinel
+		}
 		if n == "unk" {
 			env.calls++ // the instrumented fault: a partial whose text uses an undefined name
 			return "u<%= undefinedInPartial %>", nil
@@ -181,6 +198,9 @@ var c05Faults = []struct {
 	// errors whose chain contains an unknown-identifier error are still failures
 	{"helper-returns-unknown-identifier-error", `failunk("p")`, true},
 	{"partial-with-unknown-identifier", `partial("unk")`, false},
+	{"partial-feeder-fails", `partial("ferr")`, true},
+	{"layout-feeder-fails", `partial("plain", {layout: "ferr"})`, true},
+	{"contentOf-undefined-name", `contentOf(val("p", "never-defined"))`, false},
 }
 
 func c05One(b *core.B, class, tmpl, faultName string, wantSentinel bool, body string) {
@@ -287,6 +307,23 @@ func c05Run(b *core.B) {
 		{"<%= if (nope == nil) { %>T<% } %>", "T"},
 		{"<%= if (nope || true) { %>T<% } %>", "T"},
 	}
+	if mine() && b.Begin("RenderR(failing reader)") {
+		// the input itself cannot be read: the reader's error is the result
+		sentinel := errors.New("SENTINEL-reader")
+		var out string
+		var err error
+		pan := core.Guard(func() { out, err = plush.RenderR(iotest.ErrReader(sentinel), plush.NewContext()) })
+		b.Count("fault:reader-fails")
+		b.NonTrivialStr("reader-fails")
+		switch {
+		case pan != nil:
+			b.Violate("RenderR|reader-fails|"+pan.Sig(), pan.Value)
+		case err == nil || out != "":
+			b.Violate("RenderR|reader-fails|silent-success", fmt.Sprintf("out=%q err=%v", out, err))
+		case !errors.Is(err, sentinel):
+			b.Violate("RenderR|reader-fails|error-not-wrapped", err.Error())
+		}
+	}
 	for _, tc := range tol {
 		if !mine() {
 			continue
@@ -309,7 +346,7 @@ func init() {
 	core.Register(&core.Prop{
 		ID:         "C05",
 		Level:      "fault_enumeration",
-		Rule:       fmt.Sprintf("faults: a failing helper returning a unique sentinel error, plus 6 instrumented failing operations (division by zero, index out of range, type mismatch, bad argument type, missing member, calling a non-function) whose instrumented operand proves the operation was reached; positions: %d statement/body positions (tags, let/assign, conditions, branch bodies, loop iterable/body, function bodies, helper blocks, contentFor/contentOf, partial body/data/layout, after output) x %d expression positions (operand of each operator left and right, !, array/hash element, index, container, helper/user-function/variadic/method argument), all pairs enumerated for every fault, nestings of depth 2-3 sampled. A case is non-trivial when the instrumented helper's invocation counter is > 0 after the render (untaken/short-circuited positions are counted separately). Oracle: err != nil, out == \"\", errors.Is(err, sentinel) for helper errors.", len(c05StmtSkels), len(c05ExprSkels())),
+		Rule:       fmt.Sprintf("faults: a failing helper returning a unique sentinel error, plus 6 instrumented failing operations (division by zero, index out of range, type mismatch, bad argument type, missing member, calling a non-function) whose instrumented operand proves the operation was reached, a helper whose error is itself an unknown-identifier error, a partial whose text fails, the application's partial feeder failing for the partial and for its layout, and contentOf of a name never defined; positions: %d statement/body positions (tags, let/assign, conditions, branch bodies, loop iterable/body, function bodies, helper blocks, contentFor/contentOf, partial body/data/layout/name, after output, block and arguments of the shipped helpers htmlEscape, len, toJSON, truncate, range, groupBy, raw) x %d expression positions (operand of each operator left and right, !, array/hash element, index, container, helper/user-function/variadic/method argument), all pairs enumerated for every fault, nestings of depth 2-3 sampled. A case is non-trivial when the instrumented helper's invocation counter is > 0 after the render (untaken/short-circuited positions are counted separately). Oracle: err != nil, out == \"\", errors.Is(err, sentinel) for helper errors.", len(c05StmtSkels), len(c05ExprSkels())),
 		Assume:     []string{"the tolerated fault (unknown identifier as condition or operand of ! == != && ||) is checked separately and must not fail"},
 		Batches:    batchesQT(16, 32),
 		Run:        c05Run,
